@@ -17,10 +17,11 @@ type Race struct {
 func (r Race) String() string { return fmt.Sprintf("race on %s: %s  <->  %s", r.Loc, r.First, r.Later) }
 
 type access struct {
-	t   int
-	c   uint32
-	pos string
-	thr string
+	t      int
+	c      uint32
+	pos    string
+	thr    string
+	atomic bool
 }
 
 type shadow struct {
@@ -46,7 +47,17 @@ func field(pos string) string {
 	return pos
 }
 
-func (x *Exec) access(p unsafe.Pointer, pos string, write bool) {
+func (x *Exec) access(p unsafe.Pointer, pos string, write bool) { x.accessA(p, pos, write, false) }
+
+// AtomicAccess records an atomic operation on a word in the shadow memory: it never
+// races with other atomics, but a plain access to the same word unordered with it does.
+func AtomicAccess(p unsafe.Pointer, pos string, write bool) {
+	if X != nil && X.cfg.Race {
+		X.accessA(p, pos, write, true)
+	}
+}
+
+func (x *Exec) accessA(p unsafe.Pointer, pos string, write bool, atomic bool) {
 	t := x.cur
 	if t == nil {
 		return
@@ -60,8 +71,8 @@ func (x *Exec) access(p unsafe.Pointer, pos string, write bool) {
 	for len(t.VC) <= t.ID {
 		t.VC = append(t.VC, 0)
 	}
-	me := access{t: t.ID, c: t.VC[t.ID], pos: pos, thr: t.Name}
-	if s.hasW && !hb(s.w, t) {
+	me := access{t: t.ID, c: t.VC[t.ID], pos: pos, thr: t.Name, atomic: atomic}
+	if s.hasW && !hb(s.w, t) && !(atomic && s.w.atomic) {
 		kind := "read"
 		if write {
 			kind = "write"
@@ -70,7 +81,7 @@ func (x *Exec) access(p unsafe.Pointer, pos string, write bool) {
 	}
 	if write {
 		for _, r := range s.reads {
-			if !hb(r, t) {
+			if !hb(r, t) && !(atomic && r.atomic) {
 				x.Races = append(x.Races, Race{Loc: field(pos), First: "read " + r.pos + " by " + r.thr, Later: "write " + pos + " by " + t.Name})
 			}
 		}
@@ -107,19 +118,31 @@ func Wr[T any](p *T, pos string) *T {
 	return p
 }
 
-// MapRd / MapWr record accesses to a map as a whole.
-func MapRd(m any, pos string) {
-	if X != nil && X.cfg.Race {
+// MapR / MapW wrap map operands in race-mode builds: vsched.MapW(m, pos)[k] = v. The
+// whole map is one location (the Go race detector treats maps the same way).
+func MapR[M ~map[K]V, K comparable, V any](m M, pos string) M {
+	if X != nil && X.cfg.Race && m != nil {
 		Accesses++
 		_, p := chanPtr(m)
 		X.access(unsafe.Pointer(p), pos, false)
 	}
+	return m
 }
 
-func MapWr(m any, pos string) {
-	if X != nil && X.cfg.Race {
+func MapW[M ~map[K]V, K comparable, V any](m M, pos string) M {
+	if X != nil && X.cfg.Race && m != nil {
 		Accesses++
 		_, p := chanPtr(m)
 		X.access(unsafe.Pointer(p), pos, true)
+	}
+	return m
+}
+
+// Plain records an access to a harness-defined pseudo location (e.g. the state of a
+// transport implementation that is not safe for concurrent use).
+func Plain(loc *byte, pos string, write bool) {
+	if X != nil && X.cfg.Race {
+		Accesses++
+		X.access(unsafe.Pointer(loc), pos, write)
 	}
 }
